@@ -57,6 +57,27 @@ def _solve_z3(smt2, timeout_ms):
     s.set('timeout', timeout_ms)
     s.from_string(smt2)
     t0 = time.time()
+    # algebraic pre-pass: polynomial normal form of the negated goal (last assertion); decides identities such as
+    # (1-L)*c + L*c == c that the nonlinear solver may time out on
+    try:
+        asserts = s.assertions()
+        if len(asserts):
+            last = z3.simplify(asserts[len(asserts) - 1], som=True, arith_lhs=True)
+            if z3.is_false(last):
+                return 'unsat', None, (time.time() - t0) * 1000, 'simplifier(som)'
+    except z3.Z3Exception:
+        pass
+    # stage A: nonlinear products treated as opaque terms (sound for unsat), short budget
+    try:
+        sa = z3.SolverFor('QF_UFLRA') if False else z3.Solver()
+        sa.set('timeout', min(5000, timeout_ms))
+        sa.set('smt.arith.nl', False)
+        sa.from_string(smt2)
+        ra = sa.check()
+        if ra == z3.unsat:
+            return 'unsat', None, (time.time() - t0) * 1000, 'linear abstraction'
+    except z3.Z3Exception:
+        pass
     r = s.check()
     ms = (time.time() - t0) * 1000
     if r == z3.sat:
@@ -96,11 +117,63 @@ def _solve_cli(cmd, smt2, timeout_s, want_model=True):
             pass
 
 
+_OBLIGS = []
+
+
+def _assertions(o):
+    out = list(o.hyps)
+    if not o.expect_sat:
+        out.append(z3.Not(o.goal))
+    elif o.goal is not None:
+        out.append(o.goal)
+    return out
+
+
+def solve_forked(args):
+    """Worker entry point for fork-inherited obligations: no serialisation unless a CLI fall-back is needed."""
+    idx, timeout_ms, use_fallback = args
+    o = _OBLIGS[idx]
+    try:
+        t0 = time.time()
+        asserts = _assertions(o)
+        try:
+            last = z3.simplify(asserts[-1], som=True, arith_lhs=True)
+            if z3.is_false(last):
+                return str(idx), 'unsat', 'z3-5.1.0(api)', (time.time() - t0) * 1000, None, 'simplifier(som)'
+        except z3.Z3Exception:
+            pass
+        sa = z3.Solver()
+        sa.set('timeout', min(5000, timeout_ms))
+        sa.set('smt.arith.nl', False)
+        sa.add(*asserts)
+        if sa.check() == z3.unsat:
+            return str(idx), 'unsat', 'z3-5.1.0(api)', (time.time() - t0) * 1000, None, 'linear abstraction'
+        s = z3.Solver()
+        s.set('timeout', timeout_ms)
+        s.add(*asserts)
+        r = s.check()
+        ms = (time.time() - t0) * 1000
+        if r == z3.unsat:
+            return str(idx), 'unsat', 'z3-5.1.0(api)', ms, None, ''
+        if r == z3.sat:
+            return str(idx), 'sat', 'z3-5.1.0(api)', ms, _model_dict(s.model()), ''
+        if not use_fallback:
+            return str(idx), 'unknown', 'z3-5.1.0(api)', ms, None, s.reason_unknown()
+        name, r2, backend, ms2, model, reason = solve_text((str(idx), o.to_smt2(), timeout_ms, True, True))
+        return str(idx), r2, backend, ms + ms2, model, reason
+    except Exception as e:
+        return str(idx), 'unknown', 'error', 0.0, None, 'solver error: %r' % (e,)
+
+
 def solve_text(args):
     """Worker entry point: (name, smt2, timeout_ms, strings?) -> (name, result, backend, ms, model, reason)."""
-    name, smt2, timeout_ms, use_fallback = args
+    name, smt2, timeout_ms, use_fallback = args[:4]
+    skip_api = len(args) > 4 and args[4]
     try:
-        r, model, ms, reason = _solve_z3(smt2, timeout_ms)
+        if skip_api:
+            r, model, ms, reason = 'unknown', None, 0.0, 'api: unknown'
+        else:
+            r, model, ms, reason = _solve_z3(smt2, timeout_ms)
         backend = 'z3-5.1.0(api)'
         if r == 'unknown' and use_fallback:
             t = max(5, timeout_ms // 1000)
@@ -124,18 +197,16 @@ def solve_text(args):
 
 def discharge(obligs, timeout_ms=30000, procs=None, fallback=True):
     """Solve all obligations (in a pool when there are many)."""
-    tasks = []
-    for i, o in enumerate(obligs):
-        if o.smt2 is None:
-            o.to_smt2()
-        tasks.append((str(i), o.smt2, timeout_ms, fallback))
+    global _OBLIGS
+    _OBLIGS = obligs
+    tasks = [(i, timeout_ms, fallback) for i in range(len(obligs))]
     procs = procs or min(16, max(1, len(tasks)))
     if len(tasks) <= 2 or procs == 1:
-        results = [solve_text(t) for t in tasks]
+        results = [solve_forked(t) for t in tasks]
     else:
         ctx = multiprocessing.get_context('fork')
         with ctx.Pool(procs) as pool:
-            results = pool.map(solve_text, tasks, chunksize=1)
+            results = pool.map(solve_forked, tasks, chunksize=4)
     for (idx, r, backend, ms, model, reason) in results:
         o = obligs[int(idx)]
         o.backend = backend
